@@ -74,6 +74,9 @@ pub struct SSt {
     lib_de: ChunkDeserializer,
     spec: SpecDecoder,
     model: ServerModel,
+    /// an earlier handle_input call returned Err: whatever it had serialized before failing (e.g. an
+    /// acknowledgement) was never returned, although the serializer's header history includes it
+    failed_input: bool,
 }
 
 pub struct SG {
@@ -151,6 +154,17 @@ fn decoders_agree(spec: &[Out], lib: &[Out]) -> Result<(), (String, String)> {
     Ok(())
 }
 
+/// A decode failure after an earlier handle_input call returned Err has a known cause (the output
+/// that call had already serialized was dropped together with its results); it is reported under
+/// its own signature so that it can be listed as a known finding without hiding anything else.
+fn after_failed(e: (String, String), was_failed: bool) -> (String, String) {
+    if was_failed && e.0 == "C18/not-decodable-by-conformant-peer" {
+        ("C18/not-decodable-after-a-failed-handle_input-call".to_string(), format!("{} ; an earlier handle_input call had returned Err after serializing output (e.g. an acknowledgement) that was never returned", e.1))
+    } else {
+        e
+    }
+}
+
 fn short_m(m: &M) -> String {
     let s = format!("{:?}", m);
     if s.chars().count() > 140 { format!("{}...", s.chars().take(140).collect::<String>()) } else { s }
@@ -195,6 +209,11 @@ impl Graph for SG {
             v.push(SAct::FinishPlaying { sid });
         }
         v.push(SAct::Ping { ts: 0xFFFF_FFFF });
+        // the peer announces a small acknowledgement window: from then on acknowledgements are
+        // interleaved with the session's other output on chunk stream 2
+        if s.h.s.verif_ack_state().0.is_none() {
+            v.push(SAct::Raw { msid: 0, type_id: 5, body: vec![0, 0, 0, 40] });
+        }
         for id in m.out.keys() {
             v.push(SAct::Accept { id: *id });
             v.push(SAct::Reject { id: *id });
@@ -245,6 +264,10 @@ impl Graph for SG {
             return out;
         }
         let fpa = n.h.fp_logic();
+        let was_failed = n.failed_input;
+        if o.err.is_some() && n.h.clone().peer_bytes(a).is_some() {
+            n.failed_input = true;
+        }
         // keep the C09 model in step (its own violations are C09's to report)
         let lib_outs = match decode_with_lib(&mut n.lib_de, &o.packets) {
             Ok(x) => x,
@@ -271,7 +294,7 @@ impl Graph for SG {
             let mut m = n.clone();
             match decode_and_check(&mut m.spec, &delivered, &self.c) {
                 Err(e) => {
-                    out.viol.push(e);
+                    out.viol.push(after_failed(e, was_failed));
                     return out;
                 }
                 Ok(outs) => {
@@ -298,6 +321,7 @@ impl Graph for SG {
         s.spec.fingerprint(&mut v);
         v.push(0xDE);
         s.model.fingerprint(&mut v);
+        v.push(s.failed_input as u8);
         hash128(&v)
     }
 
@@ -320,7 +344,7 @@ fn server_start(chunk_size: u32) -> Result<SSt, (String, String)> {
     }
     let mut lib_de = ChunkDeserializer::new();
     let _ = decode_with_lib(&mut lib_de, &o.packets);
-    Ok(SSt { h, lib_de, spec, model: ServerModel::default() })
+    Ok(SSt { h, lib_de, spec, model: ServerModel::default(), failed_input: false })
 }
 
 // ---------------------------------------------------------------------------------------------
@@ -333,6 +357,7 @@ pub struct CStt {
     lib_de: ChunkDeserializer,
     spec: SpecDecoder,
     model: ClientModel,
+    failed_input: bool,
 }
 
 pub struct CG {
@@ -372,6 +397,9 @@ impl Graph for CG {
         v.push(CAct::OnStatus { code: "NetStream.Play.Start".into() });
         v.push(CAct::OnStatus { code: "NetStream.Publish.Start".into() });
         v.push(CAct::Ping { ts: 0xFFFF_FFFF });
+        if s.h.c.verif_ack_state().0.is_none() {
+            v.push(CAct::Raw { msid: 0, type_id: 5, body: vec![0, 0, 0, 40] });
+        }
         if let Some(n) = next_anchor(s.h.clock_ms) {
             v.push(CAct::Clock { ms: n, backwards: false });
         }
@@ -402,6 +430,10 @@ impl Graph for CG {
             return out;
         }
         let fpa = n.h.fp_logic();
+        let was_failed = n.failed_input;
+        if o.err.is_some() && n.h.clone().peer_bytes(a).is_some() {
+            n.failed_input = true;
+        }
         let lib_outs = decode_with_lib(&mut n.lib_de, &o.packets).unwrap_or_default();
         if n.model.check(a, &o, &lib_outs, &fpb, &fpa).is_err() {
             return out;
@@ -422,7 +454,7 @@ impl Graph for CG {
             let mut m = n.clone();
             let outs = match decode_and_check(&mut m.spec, &delivered, &self.c) {
                 Err(e) => {
-                    out.viol.push(e);
+                    out.viol.push(after_failed(e, was_failed));
                     return out;
                 }
                 Ok(x) => x,
@@ -479,6 +511,7 @@ impl Graph for CG {
         s.spec.fingerprint(&mut v);
         v.push(0xDE);
         s.model.fingerprint(&mut v);
+        v.push(s.failed_input as u8);
         hash128(&v)
     }
 
@@ -491,7 +524,7 @@ fn client_start(chunk_size: u32) -> Result<CStt, (String, String)> {
     let mut cfg = default_client_cfg();
     cfg.chunk_size = chunk_size;
     let (h, _o) = ClientH::new(cfg, BASE_MS).map_err(|e| ("C18/session-construction".to_string(), e))?;
-    Ok(CStt { h, lib_de: ChunkDeserializer::new(), spec: SpecDecoder::new(), model: ClientModel::default() })
+    Ok(CStt { h, lib_de: ChunkDeserializer::new(), spec: SpecDecoder::new(), model: ClientModel::default(), failed_input: false })
 }
 
 pub fn run(run: &Run) {
